@@ -349,6 +349,43 @@ def rule_H(F, R):
         R.obligation(ok, 'H derived ' + tr)
         if not ok: R.violation('rsbdd::bdd::BDD / H / %s' % tr.split('::')[-1], 'H', '%s for BDD is not the derived structural implementation' % tr)
 
+def rule_E9(F, R):
+    """C13: `duplicates(root)` can tell a diagram with two copies of a node from a shared one: the count by address is taken over the
+    diagram's own nodes (node_list(root)), never over their representatives in the table (mapped through `find`, every copy has the
+    representative's address and the count is 0 whatever the diagram looks like)"""
+    lib = F.lib()
+    fn = 'rsbdd::bdd::BDDEnv::duplicates'
+    t = lib.ithir.get(fn)
+    if t is None:
+        R.violation(fn + ' / E9 / anchor', 'UNDECIDABLE', 'duplicates not found'); return
+    lets = {}
+    for b in walk(t['body']):
+        if b['k'] == 'Block':
+            for st in b['stmts']:
+                if st['k'] == 'Let' and st.get('init') is not None:
+                    q = st['pat']
+                    while q['k'] in ('AscribeUserType', 'Deref', 'DerefPattern'): q = q.get('sub') or q.get('subpattern')
+                    if q['k'] == 'Binding': lets[q['var']] = st['init']
+    def through_find(e, depth=0):
+        for x in walk(e):
+            if x['k'] == 'Call' and callee_name(x) in ('rsbdd::bdd::BDDEnv::find', 'rsbdd::bdd::BDDEnv::mk_choice'): return True
+            if x['k'] == 'Closure':
+                ct = lib.ithir.get(canon(x['def']))
+                if ct is not None and depth < 3 and through_find(ct['body'], depth + 1): return True
+            if x['k'] in ('VarRef', 'UpvarRef') and x['var'] in lets and depth < 3 and through_find(lets[x['var']], depth + 1): return True
+        return False
+    by_addr = []
+    for e in walk(t['body']):
+        if e['k'] == 'Call' and (callee_name(e) or '').split('::')[-1] in ('unique_by', 'unique', 'dedup_by_key', 'collect') and len(e['args']) >= 1:
+            cl = [x for x in walk(e['args'][-1]) if x['k'] == 'Closure'] if len(e['args']) == 2 else []
+            ct = lib.ithir.get(canon(cl[0]['def'])) if cl else None
+            if ct is not None and any(x['k'] == 'Call' and (callee_name(x) or '') in ('std::rc::Rc::into_raw', 'std::rc::Rc::as_ptr') for x in walk(ct['body'])): by_addr.append(e)
+    ok = len(by_addr) == 1 and not through_find(by_addr[0]['args'][0])
+    R.count('E9:address-counts', len(by_addr)); R.obligation(ok, 'E9 duplicates')
+    if not ok:
+        R.violation(fn + ' / E9 / count by address', 'E9', 'the count of distinct addresses must run over the nodes of the diagram itself (node_list(root)); %s' % (
+            'it runs over nodes mapped through the table, which all have the representative\'s address' if by_addr else 'no count by address found'), t['span']['loc'] if 'span' in t else None)
+
 def rule_E8(F, R):
     """C13: a formula built with `new_with_env` works in the environment it was given - the `env` field of every ParsedFormula it
     constructs is the parameter itself (an `Rc` handle to it), never a copy of the environment (a copy has its own node table)"""
@@ -375,3 +412,19 @@ def rule_E8(F, R):
             if not ok: R.violation(fn + ' / E8 / environment', 'E8', 'the formula must keep the caller\'s environment (an Rc handle to the parameter); found %s - a copied environment has its own node table, so nodes are no longer shared with the caller\'s' % flow.show(v), f['expr'].get('loc'))
     if n == 0:
         R.violation(fn + ' / E8 / VACUITY', 'VACUITY', 'no ParsedFormula constructor with an env field found in new_with_env')
+    # ... and `new` gives every formula an environment of its own: a fresh Rc::new(BDDEnv::new()), not one kept anywhere else (the ids a
+    # formula hands out start from 0, so two formulas in one table would take each other's nodes for their own variables)
+    fn2 = 'rsbdd::parser::ParsedFormula::new'
+    t2 = lib.ithir.get(fn2)
+    if t2 is None:
+        R.violation(fn2 + ' / E8 / anchor', 'UNDECIDABLE', 'ParsedFormula::new not found'); return
+    fl2 = flow.Flow(lib, max_depth=0)          # calls are kept as calls: the question is which constructor is called, not what it builds
+    found2 = []
+    flow.scan(fl2, t2['body'], {}, lambda x: x.get('k') == 'Call' and callee_name(x) == fn, found2)
+    ok = len(found2) == 1
+    got = None
+    if ok:
+        got = fl2.ev(found2[0][0]['args'][0], found2[0][1])
+        ok = got == ('call', 'std::rc::Rc::new', (('call', 'rsbdd::bdd::BDDEnv::new', ()),)) or got == ('call', 'std::rc::Rc::new', (('call', '<rsbdd::bdd::BDDEnv as std::default::Default>::default', ()),))
+    R.count('E8:fresh-environment'); R.obligation(ok, 'E8 fresh env')
+    if not ok: R.violation(fn2 + ' / E8 / fresh environment', 'E8', 'ParsedFormula::new must build the formula in a new environment of its own (Rc::new(BDDEnv::new())); found %s' % (flow.show(got) if got is not None else '%d call(s) of new_with_env' % len(found2)), t2['span']['loc'] if 'span' in t2 else None)
